@@ -13,6 +13,10 @@
 // enumerated at compile time with a constexpr validity predicate; `--cells` prints the table (with the handle type each
 // cell produces) for the program generator in checks/c20.py.
 //
+// Handle types come in two families: light (Future/FutureOn/Task/SharedFuture/SharedFutureOn over int | void, StopError) and
+// heavy (Future/FutureOn/Task over HeavyV | void, HeavyE: payloads that own heap memory, whose copies are counted and
+// allocate; see h::Heavy).  Wire names of the heavy kinds: HF HO HT.
+//
 //   h_c20 --cells | --programs <file> | --one '<line>'
 //
 // Can be compiled as one TU, or in shards: -DC20_NSHARDS=k -DC20_SHARD=i (i = 0..k-1: cells only) and -DC20_SHARD=-1 (main).
@@ -98,6 +102,7 @@ struct Rec {
   int n = 0;
   long outside = 0;  // main thread, no API call of the program active
   long other = 0;    // another thread
+  long payload = 0;  // requested by the copy constructor of a payload (HeavyV / HeavyE), kept out of every other count
   bool on = false;
 };
 
@@ -105,6 +110,7 @@ extern std::atomic<long> g_news;
 extern Rec g_rec;
 extern thread_local Frame* t_cur;
 extern thread_local bool t_main;
+extern thread_local bool t_payload;  // a payload copy constructor is running
 
 inline long News() noexcept {
   return g_news.load(std::memory_order_relaxed);
@@ -134,6 +140,7 @@ inline void Begin() noexcept {
   g_rec.n = 0;
   g_rec.outside = 0;
   g_rec.other = 0;
+  g_rec.payload = 0;
   g_rec.on = true;
 }
 inline void End() noexcept {
@@ -148,8 +155,13 @@ std::atomic<long> g_news{0};
 Rec g_rec;
 thread_local Frame* t_cur = nullptr;
 thread_local bool t_main = false;
+thread_local bool t_payload = false;
 
 static void Note() noexcept {
+  if (t_payload) {
+    ++g_rec.payload;
+    return;
+  }
   g_news.fetch_add(1, std::memory_order_relaxed);
   if (g_rec.on) {
     if (!t_main) {
@@ -251,6 +263,78 @@ struct Ex {
   int id;
 };
 
+// Payloads that own heap memory.  Constructing one is the USER's business (malloc, not counted); MOVING one costs
+// nothing; COPYING one is counted (g_vcopies / g_ecopies) and requests a block through operator new, tallied apart
+// (cnt::g_rec.payload) so that the library's own blocks stay comparable with the model.
+extern long g_vcopies;
+extern long g_ecopies;
+
+template <long* Copies>
+struct Heavy {
+  static constexpr std::size_t kLen = 120;
+  char* buf = nullptr;
+  bool by_new = false;
+
+  explicit Heavy(int x) noexcept : buf{static_cast<char*>(std::malloc(kLen))} {
+    buf[0] = static_cast<char>(x);
+  }
+  Heavy(yaclib::StopTag) noexcept : buf{static_cast<char*>(std::malloc(kLen))} {
+    buf[0] = 's';
+  }
+  Heavy(Heavy&& o) noexcept : buf{o.buf}, by_new{o.by_new} {
+    o.buf = nullptr;
+  }
+  Heavy(const Heavy& o) : by_new{true} {
+    ++*Copies;
+    cnt::t_payload = true;
+    buf = static_cast<char*>(::operator new(kLen));
+    cnt::t_payload = false;
+    buf[0] = o.buf != nullptr ? o.buf[0] : '?';
+  }
+  Heavy& operator=(Heavy&& o) noexcept {
+    if (this != &o) {
+      Free();
+      buf = o.buf;
+      by_new = o.by_new;
+      o.buf = nullptr;
+    }
+    return *this;
+  }
+  Heavy& operator=(const Heavy& o) {
+    if (this != &o) {
+      Heavy tmp{o};
+      *this = std::move(tmp);
+    }
+    return *this;
+  }
+  ~Heavy() {
+    Free();
+  }
+  void Free() noexcept {
+    if (buf != nullptr) {
+      if (by_new) {
+        ::operator delete(buf);
+      } else {
+        std::free(buf);
+      }
+      buf = nullptr;
+    }
+  }
+  const char* What() const noexcept {
+    return "h::Heavy";
+  }
+};
+using HeavyV = Heavy<&g_vcopies>;
+using HeavyE = Heavy<&g_ecopies>;
+
+// the two families of handle types: light (int / void, StopError) and heavy (HeavyV / void, HeavyE)
+template <bool H>
+using ValOf = std::conditional_t<H, HeavyV, int>;
+template <bool H>
+using ErrOf = std::conditional_t<H, HeavyE, yaclib::StopError>;
+template <bool H, bool Void>
+using ValT = std::conditional_t<Void, void, ValOf<H>>;
+
 template <class V>
 using Fut = yaclib::Future<V>;
 template <class V>
@@ -265,9 +349,19 @@ template <class V>
 using Rs = yaclib::Result<V>;
 
 // index = 2 * kind + (void ? 1 : 0) + 1;  kind: 0 Future, 1 FutureOn, 2 Task, 3 SharedFuture, 4 SharedFutureOn
+//         5 Future<_, HeavyE>, 6 FutureOn<_, HeavyE>, 7 Task<_, HeavyE> with value HeavyV / void
 using World = std::variant<std::monostate, Fut<int>, Fut<void>, FutOn<int>, FutOn<void>, Tsk<int>, Tsk<void>, Sh<int>,
-                           Sh<void>, ShOn<int>, ShOn<void>>;
-enum WKind { kF = 0, kO = 1, kT = 2, kS = 3, kSO = 4 };
+                           Sh<void>, ShOn<int>, ShOn<void>, yaclib::Future<HeavyV, HeavyE>, yaclib::Future<void, HeavyE>,
+                           yaclib::FutureOn<HeavyV, HeavyE>, yaclib::FutureOn<void, HeavyE>, yaclib::Task<HeavyV, HeavyE>,
+                           yaclib::Task<void, HeavyE>>;
+enum WKind { kF = 0, kO = 1, kT = 2, kS = 3, kSO = 4, kHF = 5, kHO = 6, kHT = 7, kNW = 8 };
+constexpr int kNWorlds = 17;
+constexpr bool HeavyKind(int wk) {
+  return wk >= kHF;
+}
+constexpr int BaseKind(int wk) {
+  return wk >= kHF ? wk - kHF : wk;
+}
 
 template <class H>
 constexpr int WorldIndex() {
@@ -332,8 +426,21 @@ struct Prog {
   std::_Exit(4);
 }
 
-using AnyPromise =
-  std::variant<std::monostate, yaclib::Promise<int>, yaclib::Promise<void>, yaclib::SharedPromise<int>, yaclib::SharedPromise<void>>;
+using AnyPromise = std::variant<std::monostate, yaclib::Promise<int>, yaclib::Promise<void>, yaclib::SharedPromise<int>,
+                                yaclib::SharedPromise<void>, yaclib::Promise<HeavyV, HeavyE>, yaclib::Promise<void, HeavyE>>;
+
+template <class P>
+struct PromiseTypes;
+template <class V, class E>
+struct PromiseTypes<yaclib::Promise<V, E>> {
+  using Value = V;
+  using Error = E;
+};
+template <class V, class E>
+struct PromiseTypes<yaclib::SharedPromise<V, E>> {
+  using Value = V;
+  using Error = E;
+};
 
 struct Pending {
   AnyPromise p;
@@ -350,7 +457,8 @@ struct Ctx {
   int head = 0;
   int tail = 0;
   long calls = 0;
-  long steps = 0;  // API calls that are pipeline steps
+  long ecalls = 0;  // invocations of callbacks that take the error by value
+  long steps = 0;   // API calls that are pipeline steps
 
   yaclib::IExecutor& Executor(int e) {
     switch (e) {
@@ -378,17 +486,18 @@ struct Ctx {
   template <class P>
   void Set(P&& p, int res) {
     using PT = std::decay_t<P>;
-    constexpr bool kVoid = std::is_same_v<PT, yaclib::Promise<void>> || std::is_same_v<PT, yaclib::SharedPromise<void>>;
+    using V = typename PromiseTypes<PT>::Value;
+    using E = typename PromiseTypes<PT>::Error;
     switch (res) {
       case sVal:
-        if constexpr (kVoid) {
+        if constexpr (std::is_void_v<V>) {
           std::move(p).Set();
         } else {
-          std::move(p).Set(1);
+          std::move(p).Set(V{1});
         }
         break;
       case sErr:
-        std::move(p).Set(yaclib::StopTag{});
+        std::move(p).Set(E{yaclib::StopTag{}});
         break;
       default:
         std::move(p).Set(exc);
@@ -434,30 +543,41 @@ extern Ctx* g_ctx;
 
 // ------------------------------------------------------------------------------------------------ functors
 
-template <int R>
-struct RetT;
-#define C20_RET(r, t) \
-  template <>         \
-  struct RetT<r> {    \
-    using type = t;   \
-  }
-C20_RET(rI, int);
-C20_RET(rV, void);
-C20_RET(rRI, Rs<int>);
-C20_RET(rRV, Rs<void>);
-C20_RET(rFI, Fut<int>);
-C20_RET(rFV, Fut<void>);
-C20_RET(rOI, FutOn<int>);
-C20_RET(rOV, FutOn<void>);
-C20_RET(rTI, Tsk<int>);
-C20_RET(rTV, Tsk<void>);
-C20_RET(rSI, Sh<int>);
-C20_RET(rSV, Sh<void>);
-#undef C20_RET
-
 constexpr bool RetVoid(int r) {
   return (r & 1) != 0;
 }
+
+// return class R in family H: shape R / 2 (0 plain, 1 Result, 2 Future, 3 FutureOn, 4 Task, 5 SharedFuture), value R & 1
+template <int Shape, class V, class E>
+struct RetShape;
+template <class V, class E>
+struct RetShape<0, V, E> {
+  using type = V;
+};
+template <class V, class E>
+struct RetShape<1, V, E> {
+  using type = yaclib::Result<V, E>;
+};
+template <class V, class E>
+struct RetShape<2, V, E> {
+  using type = yaclib::Future<V, E>;
+};
+template <class V, class E>
+struct RetShape<3, V, E> {
+  using type = yaclib::FutureOn<V, E>;
+};
+template <class V, class E>
+struct RetShape<4, V, E> {
+  using type = yaclib::Task<V, E>;
+};
+template <class V, class E>
+struct RetShape<5, V, E> {
+  using type = yaclib::SharedFuture<V, E>;
+};
+template <bool H, int R>
+struct RetT {
+  using type = typename RetShape<R / 2, ValT<H, RetVoid(R)>, ErrOf<H>>::type;
+};
 
 template <class H>
 H Take(World&& w) {
@@ -472,9 +592,10 @@ struct Pad {
   char bytes[Big ? 200 : 1];
 };
 
-template <int R, bool Big>
+template <bool H, int R, bool Big>
 struct FnBase {
-  using Ret = typename RetT<R>::type;
+  using Ret = typename RetT<H, R>::type;
+  using E = ErrOf<H>;
   const FnSpec* spec;
   Pad<Big> pad;
 
@@ -490,26 +611,26 @@ struct FnBase {
       throw Ex{7};
     }
     if constexpr (R == rI) {
-      return 1;
+      return ValOf<H>{1};
     } else if constexpr (R == rV) {
       return;
     } else if constexpr (R == rRI) {
       switch (spec->mode) {
         case mResErr:
-          return Rs<int>{yaclib::StopTag{}};
+          return Ret{E{yaclib::StopTag{}}};
         case mResExc:
-          return Rs<int>{g_ctx->exc};
+          return Ret{g_ctx->exc};
         default:
-          return Rs<int>{1};
+          return Ret{ValOf<H>{1}};
       }
     } else if constexpr (R == rRV) {
       switch (spec->mode) {
         case mResErr:
-          return Rs<void>{yaclib::StopTag{}};
+          return Ret{E{yaclib::StopTag{}}};
         case mResExc:
-          return Rs<void>{g_ctx->exc};
+          return Ret{g_ctx->exc};
         default:
-          return Rs<void>{yaclib::Unit{}};
+          return Ret{yaclib::Unit{}};
       }
     } else {
       return Take<Ret>(g_ctx->Build(*spec->inner));
@@ -521,48 +642,51 @@ constexpr bool BigOf(int p, int r) {
   return ((p + r) & 1) != 0;
 }
 
-template <class V, int P, int R>
+// family H, world value void or not, parameter class P, return class R.  Payloads are taken BY VALUE: the library is
+// expected to move them in.
+template <bool H, bool Void, int P, int R>
 struct Fn;
 
-template <class V, int R>
-struct Fn<V, pR, R> : FnBase<R, BigOf(pR, R)> {
-  using FnBase<R, BigOf(pR, R)>::FnBase;
-  typename RetT<R>::type operator()(Rs<V>) {
+template <bool H, bool Void, int R>
+struct Fn<H, Void, pR, R> : FnBase<H, R, BigOf(pR, R)> {
+  using FnBase<H, R, BigOf(pR, R)>::FnBase;
+  typename RetT<H, R>::type operator()(yaclib::Result<ValT<H, Void>, ErrOf<H>>) {
     return this->Body();
   }
 };
-template <int R>
-struct Fn<int, pV, R> : FnBase<R, BigOf(pV, R)> {
-  using FnBase<R, BigOf(pV, R)>::FnBase;
-  typename RetT<R>::type operator()(int) {
+template <bool H, int R>
+struct Fn<H, false, pV, R> : FnBase<H, R, BigOf(pV, R)> {
+  using FnBase<H, R, BigOf(pV, R)>::FnBase;
+  typename RetT<H, R>::type operator()(ValOf<H>) {
     return this->Body();
   }
 };
-template <class V, int R>
-struct Fn<V, pE, R> : FnBase<R, BigOf(pE, R)> {
-  using FnBase<R, BigOf(pE, R)>::FnBase;
-  typename RetT<R>::type operator()(yaclib::StopError) {
+template <bool H, bool Void, int R>
+struct Fn<H, Void, pE, R> : FnBase<H, R, BigOf(pE, R)> {
+  using FnBase<H, R, BigOf(pE, R)>::FnBase;
+  typename RetT<H, R>::type operator()(ErrOf<H>) {
+    ++g_ctx->ecalls;
     return this->Body();
   }
 };
-template <class V, int R>
-struct Fn<V, pX, R> : FnBase<R, BigOf(pX, R)> {
-  using FnBase<R, BigOf(pX, R)>::FnBase;
-  typename RetT<R>::type operator()(std::exception_ptr) {
+template <bool H, bool Void, int R>
+struct Fn<H, Void, pX, R> : FnBase<H, R, BigOf(pX, R)> {
+  using FnBase<H, R, BigOf(pX, R)>::FnBase;
+  typename RetT<H, R>::type operator()(std::exception_ptr) {
     return this->Body();
   }
 };
-template <int R>
-struct Fn<void, pN, R> : FnBase<R, BigOf(pN, R)> {
-  using FnBase<R, BigOf(pN, R)>::FnBase;
-  typename RetT<R>::type operator()() {
+template <bool H, int R>
+struct Fn<H, true, pN, R> : FnBase<H, R, BigOf(pN, R)> {
+  using FnBase<H, R, BigOf(pN, R)>::FnBase;
+  typename RetT<H, R>::type operator()() {
     return this->Body();
   }
 };
-template <int R>
-struct Fn<void, pU, R> : FnBase<R, BigOf(pU, R)> {
-  using FnBase<R, BigOf(pU, R)>::FnBase;
-  typename RetT<R>::type operator()(yaclib::Unit) {
+template <bool H, int R>
+struct Fn<H, true, pU, R> : FnBase<H, R, BigOf(pU, R)> {
+  using FnBase<H, R, BigOf(pU, R)>::FnBase;
+  typename RetT<H, R>::type operator()(yaclib::Unit) {
     return this->Body();
   }
 };
@@ -579,11 +703,14 @@ constexpr int WorldKind(int wi) {
   return (wi - 1) / 2;
 }
 constexpr bool AttachOk(int wk, int a) {
-  return a != aInherit || wk == kO || wk == kT || wk == kSO;
+  return a != aInherit || BaseKind(wk) == kO || BaseKind(wk) == kT || wk == kSO;
 }
 constexpr bool ThenValid(int wi, int a, int p, int r) {
-  if (wi < 1 || wi > 10 || !AttachOk(WorldKind(wi), a) || !ParOk(p, WorldVoid(wi))) {
+  if (wi < 1 || wi >= kNWorlds || !AttachOk(WorldKind(wi), a) || !ParOk(p, WorldVoid(wi))) {
     return false;
+  }
+  if (HeavyKind(WorldKind(wi)) && r >= rSI) {
+    return false;  // the heavy family is plain futures and tasks only
   }
   if ((p == pE || p == pX) && RetVoid(r) != WorldVoid(wi)) {
     return false;  // a recovery callback keeps the value type (core.hpp:232-246)
@@ -591,7 +718,7 @@ constexpr bool ThenValid(int wi, int a, int p, int r) {
   return true;
 }
 constexpr bool DetachValid(int wi, int a, int p, int r) {
-  if (wi < 1 || wi > 10 || WorldKind(wi) == kT || !AttachOk(WorldKind(wi), a) || !ParOk(p, WorldVoid(wi))) {
+  if (wi < 1 || wi >= kNWorlds || BaseKind(WorldKind(wi)) == kT || !AttachOk(WorldKind(wi), a) || !ParOk(p, WorldVoid(wi))) {
     return false;
   }
   if (r != rV && r != rRV) {
@@ -605,8 +732,8 @@ constexpr bool DetachValid(int wi, int a, int p, int r) {
   }
   return true;
 }
-constexpr bool RunValid(int wk, int p, int /*r*/) {
-  return wk >= 0 && wk <= 4 && (p == pN || p == pU || p == pR);
+constexpr bool RunValid(int wk, int p, int r) {
+  return wk >= 0 && wk < kNW && (p == pN || p == pU || p == pR) && !(HeavyKind(wk) && r >= rSI);
 }
 
 using ThenFn = World (*)(World&&, const FnSpec*, yaclib::IExecutor*);
@@ -622,17 +749,16 @@ struct RunCell {
 };
 
 struct Table {
-  Cell then[11][kNA][kNP][kNR];
-  Cell detach[11][kNA][kNP][kNR];
-  RunCell run[5][kNP][kNR];
+  Cell then[kNWorlds][kNA][kNP][kNR];
+  Cell detach[kNWorlds][kNA][kNP][kNR];
+  RunCell run[kNW][kNP][kNR];
 };
 extern Table g_table;
 
 template <int WI, int A, int P, int R>
 struct ThenCell {
   using H = std::variant_alternative_t<WI, World>;
-  using V = std::conditional_t<WorldVoid(WI), void, int>;
-  using F = Fn<V, P, R>;
+  using F = Fn<HeavyKind(WorldKind(WI)), WorldVoid(WI), P, R>;
   static auto Do(H& h, const FnSpec* s, yaclib::IExecutor* e) {
     if constexpr (WorldKind(WI) == kS || WorldKind(WI) == kSO) {
       if constexpr (A == aInline) {
@@ -662,8 +788,7 @@ struct ThenCell {
 template <int WI, int A, int P, int R>
 struct DetachCell {
   using H = std::variant_alternative_t<WI, World>;
-  using V = std::conditional_t<WorldVoid(WI), void, int>;
-  using F = Fn<V, P, R>;
+  using F = Fn<HeavyKind(WorldKind(WI)), WorldVoid(WI), P, R>;
   static World Thunk(World&& w, const FnSpec* s, yaclib::IExecutor* e) {
     H h = std::get<WI>(std::move(w));
     if constexpr (WorldKind(WI) == kS || WorldKind(WI) == kSO) {
@@ -689,18 +814,20 @@ struct DetachCell {
 
 template <int WK, int P, int R>
 struct RunCellT {
-  using F = Fn<void, P, R>;
+  static constexpr bool kH = HeavyKind(WK);
+  using E = ErrOf<kH>;
+  using F = Fn<kH, true, P, R>;
   static auto Do(const FnSpec* s, yaclib::IExecutor* e) {
-    if constexpr (WK == kF) {
-      return yaclib::Run(F{s});
-    } else if constexpr (WK == kO) {
-      return yaclib::Run(*e, F{s});
+    if constexpr (BaseKind(WK) == kF) {
+      return yaclib::Run<E>(F{s});
+    } else if constexpr (BaseKind(WK) == kO) {
+      return yaclib::Run<E>(*e, F{s});
     } else if constexpr (WK == kS) {
-      return yaclib::RunShared(F{s});
+      return yaclib::RunShared<E>(F{s});
     } else if constexpr (WK == kSO) {
-      return yaclib::RunShared(*e, F{s});
+      return yaclib::RunShared<E>(*e, F{s});
     } else {
-      return yaclib::Schedule(*e, F{s});
+      return yaclib::Schedule<E>(*e, F{s});
     }
   }
   using Out = decltype(Do(nullptr, nullptr));
@@ -709,8 +836,8 @@ struct RunCellT {
   }
 };
 
-constexpr int kThenCells = 11 * kNA * kNP * kNR;
-constexpr int kRunCells = 5 * kNP * kNR;
+constexpr int kThenCells = kNWorlds * kNA * kNP * kNR;
+constexpr int kRunCells = kNW * kNP * kNR;
 
 template <int I>
 void RegThen(Table& t) {
@@ -745,7 +872,7 @@ template <int Shard, int... I>
 void RegRunShard(Table& t, std::integer_sequence<int, I...>) {
   (RegRun<I * C20_NSHARDS + Shard>(t), ...);
 }
-// indices beyond the table decode to wi >= 11 and are rejected by the validity predicates
+// indices beyond the table decode to wi >= kNWorlds and are rejected by the validity predicates
 template <int Shard>
 void RegisterCells(Table& t) {
   RegThenShard<Shard>(t, std::make_integer_sequence<int, (kThenCells + C20_NSHARDS - 1) / C20_NSHARDS>{});
@@ -1143,6 +1270,8 @@ static h::ShardReg g_reg_shard{&h::RegisterShardAll<0>};
 
 namespace h {
 
+long g_vcopies = 0;
+long g_ecopies = 0;
 Table g_table;
 Tables g_tables;
 Inputs g_in;
@@ -1195,7 +1324,7 @@ struct Parser {
     std::_Exit(3);
   }
   int W() {
-    return Find(Word(), {"F", "O", "T", "S", "SO"}, "handle kind");
+    return Find(Word(), {"F", "O", "T", "S", "SO", "HF", "HO", "HT"}, "handle kind");
   }
   int V() {
     return Find(Word(), {"i", "v"}, "value type");
@@ -1317,36 +1446,38 @@ struct Parser {
 
 // ---------------------------------------------------------------------------------------------------- sources
 
-template <class V>
+// V = the value type of the source (int / HeavyV / void), E its error type
+template <class V, class E>
 World Ready(Ctx& c, const Src& s) {
-  if (s.w == kT) {
+  const int base = BaseKind(s.w);
+  if (base == kT) {
     switch (s.res) {
       case sVal:
         if constexpr (std::is_void_v<V>) {
-          return World{yaclib::MakeTask<void>()};
+          return World{yaclib::MakeTask<void, E>()};
         } else {
-          return World{yaclib::MakeTask<int>(1)};
+          return World{yaclib::MakeTask<V, E>(V{1})};
         }
       case sErr:
-        return World{yaclib::MakeTask<V>(yaclib::StopTag{})};
+        return World{yaclib::MakeTask<V, E>(E{yaclib::StopTag{}})};
       default:
-        return World{yaclib::MakeTask<V>(c.exc)};
+        return World{yaclib::MakeTask<V, E>(c.exc)};
     }
   }
-  if (s.w != kF) {
+  if (base != kF) {
     Die("ready source must be a Future or a Task");
   }
   switch (s.res) {
     case sVal:
       if constexpr (std::is_void_v<V>) {
-        return World{yaclib::MakeFuture<void>()};
+        return World{yaclib::MakeFuture<void, E>()};
       } else {
-        return World{yaclib::MakeFuture<int>(1)};
+        return World{yaclib::MakeFuture<V, E>(V{1})};
       }
     case sErr:
-      return World{yaclib::MakeFuture<V>(yaclib::StopTag{})};
+      return World{yaclib::MakeFuture<V, E>(E{yaclib::StopTag{}})};
     default:
-      return World{yaclib::MakeFuture<V>(c.exc)};
+      return World{yaclib::MakeFuture<V, E>(c.exc)};
   }
 }
 
@@ -1360,28 +1491,35 @@ World FinishContract(Ctx& c, const Src& s, F&& f, P&& p) {
   return World{std::move(f)};
 }
 
-template <class V>
+template <class V, class E>
 World Contract(Ctx& c, const Src& s) {
   switch (s.w) {
-    case kF: {
-      auto [f, p] = yaclib::MakeContract<V>();
+    case kF:
+    case kHF: {
+      auto [f, p] = yaclib::MakeContract<V, E>();
       return FinishContract(c, s, std::move(f), std::move(p));
     }
-    case kO: {
-      auto [f, p] = yaclib::MakeContractOn<V>(c.Executor(s.exec));
+    case kO:
+    case kHO: {
+      auto [f, p] = yaclib::MakeContractOn<V, E>(c.Executor(s.exec));
       return FinishContract(c, s, std::move(f), std::move(p));
     }
-    case kS: {
-      auto [f, p] = yaclib::MakeSharedContract<V>();
-      return FinishContract(c, s, std::move(f), std::move(p));
-    }
-    case kSO: {
-      auto [f, p] = yaclib::MakeSharedContractOn<V>(c.Executor(s.exec));
-      return FinishContract(c, s, std::move(f), std::move(p));
-    }
+    case kS:
+      if constexpr (std::is_same_v<E, yaclib::StopError>) {
+        auto [f, p] = yaclib::MakeSharedContract<V, E>();
+        return FinishContract(c, s, std::move(f), std::move(p));
+      }
+      break;
+    case kSO:
+      if constexpr (std::is_same_v<E, yaclib::StopError>) {
+        auto [f, p] = yaclib::MakeSharedContractOn<V, E>(c.Executor(s.exec));
+        return FinishContract(c, s, std::move(f), std::move(p));
+      }
+      break;
     default:
-      Die("contract source cannot be a Task");
+      break;
   }
+  Die("contract source: unsupported handle kind");
 }
 
 template <class PromiseT>
@@ -1405,58 +1543,70 @@ struct PromFn {
   }
 };
 
-template <class V>
+template <class V, class E>
 World Prom(Ctx& c, const Src& s) {
   auto& e = c.Executor(s.exec);
   switch (s.w) {
     case kF:
-      return World{yaclib::AsyncContract<V>(PromFn<yaclib::Promise<V>>{&s})};
+    case kHF:
+      return World{yaclib::AsyncContract<V, E>(PromFn<yaclib::Promise<V, E>>{&s})};
     case kO:
-      return World{yaclib::AsyncContract<V>(e, PromFn<yaclib::Promise<V>>{&s})};
+    case kHO:
+      return World{yaclib::AsyncContract<V, E>(e, PromFn<yaclib::Promise<V, E>>{&s})};
     case kSO:
-      return World{yaclib::AsyncSharedContract<V>(e, PromFn<yaclib::SharedPromise<V>>{&s})};
+      if constexpr (std::is_same_v<E, yaclib::StopError>) {
+        return World{yaclib::AsyncSharedContract<V, E>(e, PromFn<yaclib::SharedPromise<V, E>>{&s})};
+      }
+      break;
     case kT:
-      return World{yaclib::LazyContract<V>(e, PromFn<yaclib::Promise<V>>{&s})};
+    case kHT:
+      return World{yaclib::LazyContract<V, E>(e, PromFn<yaclib::Promise<V, E>>{&s})};
     default:
-      Die("prom source: unsupported handle kind");
+      break;
   }
+  Die("prom source: unsupported handle kind");
 }
+
+// dispatch a source template on (family, value type)
+#define C20_SRC_DISPATCH(Fun, c, s)                                                         \
+  (HeavyKind((s).w) ? ((s).tvoid ? Fun<void, HeavyE>(c, s) : Fun<HeavyV, HeavyE>(c, s))    \
+                    : ((s).tvoid ? Fun<void, yaclib::StopError>(c, s) : Fun<int, yaclib::StopError>(c, s)))
 
 #if YACLIB_CORO != 0
 // operand of `co_await x`: futures and tasks are consumed, shared futures are not
-template <class V>
-Fut<V>&& CoArg(Fut<V>& x) {
+template <class V, class E>
+yaclib::Future<V, E>&& CoArg(yaclib::Future<V, E>& x) {
   return std::move(x);
 }
-template <class V>
-FutOn<V>&& CoArg(FutOn<V>& x) {
+template <class V, class E>
+yaclib::FutureOn<V, E>&& CoArg(yaclib::FutureOn<V, E>& x) {
   return std::move(x);
 }
-template <class V>
-Tsk<V>&& CoArg(Tsk<V>& x) {
+template <class V, class E>
+yaclib::Task<V, E>&& CoArg(yaclib::Task<V, E>& x) {
   return std::move(x);
 }
-template <class V>
-const Sh<V>& CoArg(Sh<V>& x) {
+template <class V, class E>
+const yaclib::SharedFuture<V, E>& CoArg(yaclib::SharedFuture<V, E>& x) {
   return x;
 }
-template <class V>
-const ShOn<V>& CoArg(ShOn<V>& x) {
+template <class V, class E>
+const yaclib::SharedFutureOn<V, E>& CoArg(yaclib::SharedFutureOn<V, E>& x) {
   return x;
 }
 // awaits world alternative I of w (built just before) in the given mode; a macro because co_await must be in the body
-#  define C20_AWAIT_ALT(I)                                                    \
-    case I: {                                                                 \
-      auto& x = *std::get_if<I>(&w);                                          \
-      if (s->amode == 0) {                                                    \
-        co_await yaclib::Await(x);                                            \
-      } else {                                                                \
-        (void)co_await CoArg(x);                                              \
-      }                                                                       \
-      break;                                                                  \
+#  define C20_AWAIT_ALT(I)                 \
+    case I: {                              \
+      auto& x = *std::get_if<I>(&w);       \
+      if (s->amode == 0) {                 \
+        co_await yaclib::Await(x);         \
+      } else {                             \
+        (void)co_await CoArg(x);           \
+      }                                    \
+      break;                               \
     }
 
-#  define C20_CORO_BODY(V)                        \
+#  define C20_CORO_BODY()                         \
     for (const Prog* in : s->inners) {            \
       World w = c->Build(*in);                    \
       switch (w.index()) {                        \
@@ -1470,6 +1620,12 @@ const ShOn<V>& CoArg(ShOn<V>& x) {
         C20_AWAIT_ALT(8)                          \
         C20_AWAIT_ALT(9)                          \
         C20_AWAIT_ALT(10)                         \
+        C20_AWAIT_ALT(11)                         \
+        C20_AWAIT_ALT(12)                         \
+        C20_AWAIT_ALT(13)                         \
+        C20_AWAIT_ALT(14)                         \
+        C20_AWAIT_ALT(15)                         \
+        C20_AWAIT_ALT(16)                         \
         default:                                  \
           Die("coroutine: nothing to await");     \
       }                                           \
@@ -1481,30 +1637,25 @@ const ShOn<V>& CoArg(ShOn<V>& x) {
       co_return c->exc;                           \
     }
 
-Fut<int> CoroFI(Ctx* c, const Src* s) {
-  C20_CORO_BODY(int)
-  co_return 1;
-}
-Fut<void> CoroFV(Ctx* c, const Src* s) {
-  C20_CORO_BODY(void)
-  co_return{};
-}
-Tsk<int> CoroTI(Ctx* c, const Src* s) {
-  C20_CORO_BODY(int)
-  co_return 1;
-}
-Tsk<void> CoroTV(Ctx* c, const Src* s) {
-  C20_CORO_BODY(void)
-  co_return{};
-}
-Sh<int> CoroSI(Ctx* c, const Src* s) {
-  C20_CORO_BODY(int)
-  co_return 1;
-}
-Sh<void> CoroSV(Ctx* c, const Src* s) {
-  C20_CORO_BODY(void)
-  co_return{};
-}
+#  define C20_CORO(Name, Handle, Value) \
+    Handle Name(Ctx* c, const Src* s) { \
+      C20_CORO_BODY()                   \
+      co_return Value;                  \
+    }
+C20_CORO(CoroFI, Fut<int>, 1)
+C20_CORO(CoroFV, Fut<void>, yaclib::Unit{})
+C20_CORO(CoroTI, Tsk<int>, 1)
+C20_CORO(CoroTV, Tsk<void>, yaclib::Unit{})
+C20_CORO(CoroSI, Sh<int>, 1)
+C20_CORO(CoroSV, Sh<void>, yaclib::Unit{})
+using HFI = yaclib::Future<HeavyV, HeavyE>;
+using HFV = yaclib::Future<void, HeavyE>;
+using HTI = yaclib::Task<HeavyV, HeavyE>;
+using HTV = yaclib::Task<void, HeavyE>;
+C20_CORO(CoroHFI, HFI, HeavyV{1})
+C20_CORO(CoroHFV, HFV, yaclib::Unit{})
+C20_CORO(CoroHTI, HTI, HeavyV{1})
+C20_CORO(CoroHTV, HTV, yaclib::Unit{})
 #endif
 
 World Coro(Ctx& c, const Src& s) {
@@ -1522,6 +1673,14 @@ World Coro(Ctx& c, const Src& s) {
       return World{CoroSI(&c, &s)};
     case kS * 2 + 1:
       return World{CoroSV(&c, &s)};
+    case kHF * 2:
+      return World{CoroHFI(&c, &s)};
+    case kHF * 2 + 1:
+      return World{CoroHFV(&c, &s)};
+    case kHT * 2:
+      return World{CoroHTI(&c, &s)};
+    case kHT * 2 + 1:
+      return World{CoroHTV(&c, &s)};
     default:
       Die("coroutine source: unsupported handle kind");
   }
@@ -1539,12 +1698,12 @@ World BuildSrc(Ctx& c, const Src& s) {
     case 0: {
       cnt::Scope sc{kReady};
       ++c.steps;
-      return s.tvoid ? Ready<void>(c, s) : Ready<int>(c, s);
+      return C20_SRC_DISPATCH(Ready, c, s);
     }
     case 1: {
       cnt::Scope sc{kContract};
       ++c.steps;
-      return s.tvoid ? Contract<void>(c, s) : Contract<int>(c, s);
+      return C20_SRC_DISPATCH(Contract, c, s);
     }
     case 2: {
       cnt::Scope sc{kRun};
@@ -1558,7 +1717,7 @@ World BuildSrc(Ctx& c, const Src& s) {
     case 3: {
       cnt::Scope sc{kProm};
       ++c.steps;
-      return s.tvoid ? Prom<void>(c, s) : Prom<int>(c, s);
+      return C20_SRC_DISPATCH(Prom, c, s);
     }
     default: {
       cnt::Scope sc{kCoro};
@@ -1581,12 +1740,76 @@ World VisitWorld(World&& w, F&& f) {
     std::move(w));
 }
 
+// conversions, by overload on the handle type
+template <class V, class E>
+World DoToFuture(Ctx&, yaclib::Task<V, E>&& t, const Op&) {
+  return World{std::move(t).ToFuture()};
+}
+template <class T>
+World DoToFuture(Ctx&, T&&, const Op&) {
+  Die("tofuture needs a Task");
+}
+template <class V, class E>
+World DoStartOn(Ctx& c, yaclib::Task<V, E>&& t, const Op& op) {
+  return World{std::move(t).ToFuture(c.Executor(op.exec))};
+}
+template <class T>
+World DoStartOn(Ctx&, T&&, const Op&) {
+  Die("starton needs a Task");
+}
+template <class V, class E>
+World DoOnNull(Ctx&, yaclib::FutureOn<V, E>&& f, const Op&) {
+  return World{std::move(f).On(nullptr)};
+}
+template <class V, class E>
+World DoOnNull(Ctx&, yaclib::Task<V, E>&& f, const Op&) {
+  return World{std::move(f).On(nullptr)};
+}
+template <class V, class E>
+World DoOnNull(Ctx&, yaclib::SharedFutureOn<V, E>&& f, const Op&) {
+  return World{std::move(f).On(nullptr)};
+}
+template <class T>
+World DoOnNull(Ctx&, T&&, const Op&) {
+  Die("onnull needs a FutureOn, Task or SharedFutureOn");
+}
+template <class V>
+World DoSplit(Ctx&, yaclib::Future<V, yaclib::StopError>&& f, const Op&) {
+  return World{yaclib::Split(std::move(f))};
+}
+template <class V>
+World DoSplit(Ctx&, yaclib::FutureOn<V, yaclib::StopError>&& f, const Op&) {
+  return World{yaclib::Split(std::move(f))};
+}
+template <class T>
+World DoSplit(Ctx&, T&&, const Op&) {
+  Die("split needs a (light) Future or FutureOn");
+}
+template <class SF>
+World ShareImpl(Ctx& c, SF& sf, const Op& op) {
+  if (op.kind == 7) {
+    return World{yaclib::Share(sf)};
+  }
+  return World{yaclib::Share(sf, c.Executor(op.exec))};
+}
+template <class V, class E>
+World DoShare(Ctx& c, yaclib::SharedFuture<V, E>&& sf, const Op& op) {
+  return ShareImpl(c, sf, op);
+}
+template <class V, class E>
+World DoShare(Ctx& c, yaclib::SharedFutureOn<V, E>&& sf, const Op& op) {
+  return ShareImpl(c, sf, op);
+}
+template <class T>
+World DoShare(Ctx&, T&&, const Op&) {
+  Die("share needs a SharedFuture");
+}
+
 World Apply(Ctx& c, World&& w, const Op& op) {
   const int wi = static_cast<int>(w.index());
   if (wi == 0) {
     Die("operation on a detached pipeline");
   }
-  const int wk = WorldKind(wi);
   switch (op.kind) {
     case 0:
     case 1: {
@@ -1608,81 +1831,36 @@ World Apply(Ctx& c, World&& w, const Op& op) {
     }
     case 3: {  // Task::ToFuture(e)
       cnt::Scope sc{kConv};
-      if (wk != kT) {
-        Die("starton needs a Task");
-      }
-      if (wi == 5) {
-        return World{std::get<5>(std::move(w)).ToFuture(c.Executor(op.exec))};
-      }
-      return World{std::get<6>(std::move(w)).ToFuture(c.Executor(op.exec))};
+      return VisitWorld(std::move(w), [&](auto h) -> World {
+        return DoStartOn(c, std::move(h), op);
+      });
     }
     case 4: {  // Task::ToFuture()
       cnt::Scope sc{kConv};
-      if (wk != kT) {
-        Die("tofuture needs a Task");
-      }
-      if (wi == 5) {
-        return World{std::get<5>(std::move(w)).ToFuture()};
-      }
-      return World{std::get<6>(std::move(w)).ToFuture()};
+      return VisitWorld(std::move(w), [&](auto h) -> World {
+        return DoToFuture(c, std::move(h), op);
+      });
     }
     case 5: {  // On(nullptr)
       cnt::Scope sc{kConv};
-      switch (wi) {
-        case 3:
-          return World{std::get<3>(std::move(w)).On(nullptr)};
-        case 4:
-          return World{std::get<4>(std::move(w)).On(nullptr)};
-        case 5:
-          return World{std::get<5>(std::move(w)).On(nullptr)};
-        case 6:
-          return World{std::get<6>(std::move(w)).On(nullptr)};
-        case 9:
-          return World{std::get<9>(std::move(w)).On(nullptr)};
-        case 10:
-          return World{std::get<10>(std::move(w)).On(nullptr)};
-        default:
-          Die("onnull needs a FutureOn, Task or SharedFutureOn");
-      }
+      return VisitWorld(std::move(w), [&](auto h) -> World {
+        return DoOnNull(c, std::move(h), op);
+      });
     }
     case 6: {  // Split
       cnt::Scope sc{kSplit};
       ++c.steps;
-      switch (wi) {
-        case 1:
-          return World{yaclib::Split(std::get<1>(std::move(w)))};
-        case 2:
-          return World{yaclib::Split(std::get<2>(std::move(w)))};
-        case 3:
-          return World{yaclib::Split(std::get<3>(std::move(w)))};
-        case 4:
-          return World{yaclib::Split(std::get<4>(std::move(w)))};
-        default:
-          Die("split needs a Future or FutureOn");
-      }
+      return VisitWorld(std::move(w), [&](auto h) -> World {
+        return DoSplit(c, std::move(h), op);
+      });
     }
     case 7:
     case 8: {  // Share
       cnt::Scope sc{kShare};
       ++c.steps;
-      auto share = [&](auto& sf) -> World {
-        if (op.kind == 7) {
-          return World{yaclib::Share(sf)};
-        }
-        return World{yaclib::Share(sf, c.Executor(op.exec))};
-      };
-      switch (wi) {
-        case 7:
-          return share(std::get<7>(w));
-        case 8:
-          return share(std::get<8>(w));
-        case 9:
-          return share(std::get<9>(w));
-        case 10:
-          return share(std::get<10>(w));
-        default:
-          Die("share needs a SharedFuture");
-      }
+      return VisitWorld(std::move(w), [&](auto h) -> World {
+        return DoShare(c, std::move(h), op);
+      });
     }
     default:
       Die("unknown op kind");
@@ -1704,7 +1882,7 @@ int Final(World& w) {
       using H = std::decay_t<decltype(h)>;
       if constexpr (std::is_same_v<H, std::monostate>) {
         return 3;
-      } else if constexpr (std::is_same_v<H, Tsk<int>> || std::is_same_v<H, Tsk<void>>) {
+      } else if constexpr (yaclib::is_task_v<H>) {
         return 5;
       } else {
         if (!h.Ready()) {
@@ -1732,11 +1910,18 @@ struct PipeResult {
   int final = 0;
   long outside = 0;
   long other = 0;
+  long vcopies = 0;  // copy constructions of the value payload during the program
+  long ecopies = 0;  // of the error payload
+  long ecalls = 0;   // invocations of callbacks taking the error by value
+  long payload = 0;  // blocks requested by those copies (kept out of news)
 };
 
 void RunPipe(Ctx& c, const Prog& p, PipeResult& r) {
   c.calls = 0;
+  c.ecalls = 0;
   c.steps = 0;
+  g_vcopies = 0;
+  g_ecopies = 0;
   cnt::Begin();
   const long a = cnt::News();
   {
@@ -1751,6 +1936,10 @@ void RunPipe(Ctx& c, const Prog& p, PipeResult& r) {
   r.calls = c.calls;
   r.outside = cnt::g_rec.outside;
   r.other = cnt::g_rec.other;
+  r.vcopies = g_vcopies;
+  r.ecopies = g_ecopies;
+  r.ecalls = c.ecalls;
+  r.payload = cnt::g_rec.payload;
 }
 
 }  // namespace h
@@ -2283,7 +2472,7 @@ void PrintCells() {
   static const char* ret[] = {"I", "V", "RI", "RV", "FI", "FV", "OI", "OV", "TI", "TV", "SI", "SV"};
   static const char* att[] = {"inline", "on", "inherit"};
   int nthen = 0, ndetach = 0, nrun = 0;
-  for (int wi = 1; wi <= 10; ++wi) {
+  for (int wi = 1; wi < kNWorlds; ++wi) {
     for (int a = 0; a < kNA; ++a) {
       for (int p = 0; p < kNP; ++p) {
         for (int r = 0; r < kNR; ++r) {
@@ -2299,7 +2488,7 @@ void PrintCells() {
       }
     }
   }
-  for (int wk = 0; wk < 5; ++wk) {
+  for (int wk = 0; wk < kNW; ++wk) {
     for (int p = 0; p < kNP; ++p) {
       for (int r = 0; r < kNR; ++r) {
         if (g_table.run[wk][p][r].run != nullptr) {
@@ -2366,8 +2555,9 @@ void RunLine(Ctx& c, long idx, const std::string& line) {
       }
       frames += std::to_string(cnt::g_rec.frames[i].kind) + ":" + std::to_string(cnt::g_rec.frames[i].count);
     }
-    std::printf("{\"i\":%ld,\"t\":\"pipe\",\"news\":%ld,\"steps\":%ld,\"calls\":%ld,\"final\":%d,\"outside\":%ld,\"other\":%ld,\"frames\":\"%s\"}\n",
-                idx, r.news, r.steps, r.calls, r.final, r.outside, r.other, frames.c_str());
+    std::printf("{\"i\":%ld,\"t\":\"pipe\",\"news\":%ld,\"steps\":%ld,\"calls\":%ld,\"final\":%d,\"outside\":%ld,\"other\":%ld,"
+                "\"vcopies\":%ld,\"ecopies\":%ld,\"ecalls\":%ld,\"payload\":%ld,\"frames\":\"%s\"}\n",
+                idx, r.news, r.steps, r.calls, r.final, r.outside, r.other, r.vcopies, r.ecopies, r.ecalls, r.payload, frames.c_str());
     return;
   }
   int a[8] = {0, 0, 0, 0, 0, 0, 0, 0};
